@@ -3,6 +3,8 @@ Ported to Python 3.
 """
 from __future__ import annotations
 
+import re
+
 from twisted.web import http, static
 from twisted.internet import defer
 from twisted.web.resource import (
@@ -403,6 +405,11 @@ class FileDownloader(Resource, object):
 
             def parse_range(r):
                 first, last = r.split('-', 1)
+                # the positions are 1*DIGIT; int() alone would also take
+                # signs, blanks, underscores and non-ASCII digits
+                for pos in (first, last):
+                    if pos != '' and not re.match(r'^[0-9]+$', pos):
+                        raise ValueError
 
                 if first == '':
                     # suffix-byte-range-spec
